@@ -49,6 +49,7 @@ def run(F, rep, tier):
     T = load_tables(F, rep, r1)
     if g is None or T is None:
         return
+    driver_guard_rule(F, rep, T)
     a = lalr.build_lalr(g)
     actions, conflicts = lalr.resolve_actions(a)
     info, mism = lalr.compare(a, actions, T)
@@ -331,3 +332,103 @@ def actions_rule(F, rep, rid, g):
             else:
                 rep.violation(rid, "variant:%s" % a, "action_%s pushes %s, the grammar action denotes %s" % (a, ctors, want), "%s:%s" % (h["file"], h["line"]))
     rep.floor(rid, "multi-operand node constructions", multi, 25)
+
+
+def driver_guard_rule(F, rep, T):
+    """R06.5: the driver reads the packed tables (YY_TABLE / YY_CHECK, YY_LAST + 1 entries each) exactly under the guard of bison's skeleton,
+    0 <= index <= YY_LAST: a narrower guard silently drops valid table entries (the default action is taken instead), a wider one is a panic
+    (C05). Decided on the MIR of Parser::parse: at every bounds check against a constant length of YY_LAST + 1, the interval the dominating
+    comparisons / range tests impose on the index must be exactly [0, YY_LAST]."""
+    import g1_panic
+    rid = rep.rule("R06.5", "the LALR driver consults the packed action/goto table under exactly the skeleton's guard 0 <= index <= YY_LAST")
+    names = [k for k in F.bodies if re.match(r"^dmntk_feel_parser::parser::Parser::(<[^>]*>::)?parse$", k)]
+    if not names:
+        rep.missing_anchor(rid, "dmntk_feel_parser::parser::Parser::parse")
+        return
+    last = len(T.c["YY_TABLE"]) - 1 if "YY_TABLE" in T.c else None
+    if last is None or len(T.c.get("YY_CHECK", [])) != last + 1:
+        rep.missing_anchor(rid, "YY_TABLE / YY_CHECK of equal length")
+        return
+    A = g1_panic.Analyzer(F, names[0])
+    b = F.bodies[names[0]]
+    n = 0
+    for s in g1_panic.collect_sites(F, names[0]):
+        if s.kind != "assert" or "BoundsCheck" not in s.what or not s.ops or len(s.ops) < 2:
+            continue
+        ln, ix = A.sym(s.ops[0]), A.sym(s.ops[1])
+        if ln != ("c", last + 1):
+            continue
+        n += 1
+        key = "packed-table-access#%d" % (n - 1)
+        lo, hi = None, None
+        for f in A.facts_at(s.block):
+            if f[0] == "cmp":
+                op, x, y = f[1], f[2], f[3]
+                if y == ix and x[0] == "c":
+                    op, x, y = g1_panic.FLIP[op], y, x
+                if x == ix and y[0] == "c":
+                    k = y[1]
+                    if op == ">=":
+                        lo = k if lo is None else max(lo, k)
+                    elif op == ">":
+                        lo = k + 1 if lo is None else max(lo, k + 1)
+                    elif op == "<=":
+                        hi = k if hi is None else min(hi, k)
+                    elif op == "<":
+                        hi = k - 1 if hi is None else min(hi, k - 1)
+        # `(a..=b).contains(&i)` / `(a..b).contains(&i)` evaluated true on the path
+        isig = g1_panic.expr_sig(A, s.ops[1])
+        dom = A.dom[s.block]
+        for bi in dom:
+            t = b["blocks"][bi]["t"]
+            if t[0] != "call" or not re.search(r"ops::range::Range(Inclusive)?::<.*>::contains$", t[1]["f"].get("p") or ""):
+                continue
+            if not any(f[0] == "call" and f[1] == t[1]["f"]["p"] and f[2] is True for f in A.facts_at(s.block)):
+                continue
+            args = t[1]["args"]
+            if len(args) != 2 or g1_panic.expr_sig(A, args[1]) != isig:
+                continue
+            rs = g1_panic.expr_sig(A, args[0])
+            m = re.match(r"^RangeInclusive::new\((-?\d+),(-?\d+)\)$", rs)
+            m2 = re.match(r"^Range\{(-?\d+),(-?\d+)\}$", rs)
+            if m:
+                lo, hi = int(m.group(1)), int(m.group(2))
+            elif m2:
+                lo, hi = int(m2.group(1)), int(m2.group(2)) - 1
+            else:
+                # the range is a promoted constant in MIR: read its end points from the type-checked HIR of the same call (same source line)
+                h = F.hir.get(names[0])
+                for mc, _ in find_hir(h["body"], lambda x: x.get("k") == "MethodCall" and x.get("method") == "contains" and x.get("l") == t[1].get("line")):
+                    r = strip(mc["recv"])
+                    ends = None
+                    if r.get("k") == "Call" and (r.get("callee") or "").endswith("RangeInclusive::<Idx>::new") and len(r.get("args", [])) == 2:
+                        ends = [const_value(T, x) for x in r["args"]]
+                        incl = True
+                    elif r.get("k") == "Struct" and (r.get("path") or "").endswith("ops::range::Range"):
+                        fs = {f["name"]: f["e"] for f in r.get("fields", [])}
+                        ends = [const_value(T, fs.get("start")), const_value(T, fs.get("end"))]
+                        incl = False
+                    if ends and None not in ends:
+                        lo, hi = ends[0], ends[1] if incl else ends[1] - 1
+        where = "%s:%s" % (b["file"], s.line)
+        if (lo, hi) == (0, last):
+            rep.ok(rid, key, "index guarded by 0 <= i <= %d" % last)
+        else:
+            rep.violation(rid, key, "the packed table is read at line %s under the guard %s <= index <= %s; bison's skeleton requires exactly 0 <= index <= YY_LAST (= %d): "
+                          "entries outside the narrower guard are ignored and the default action is taken" % (s.line, lo, hi, last), where)
+    rep.floor(rid, "packed-table accesses in Parser::parse", n, 4)
+
+
+def const_value(T, e):
+    if e is None:
+        return None
+    e = strip(e)
+    if e.get("k") == "Lit" and isinstance(e.get("v"), int):
+        return e["v"]
+    if e.get("k") == "Path" and e.get("res") == "def":
+        v = T.c.get((e.get("path") or "").split("::")[-1])
+        return v if isinstance(v, int) else None
+    if e.get("k") == "Unary" and e.get("op") == "-":
+        v = const_value(T, e["a"])
+        return -v if v is not None else None
+    return None
